@@ -169,6 +169,144 @@ def check_component_coverage(chk, v, g, mc, what, variant):
     chk.require(not bad1, "R1", what, where=g.where, ok="(result->a+i, p, sample->a+i): %s (n = k+1)" % det1, bad="; ".join(bad1), variant=variant)
 
 
+def _show_pair(pr):
+    val, row = pr
+
+    def sv(x):
+        if x[0] == "fft":
+            return "FFT(%s)" % sv(x[1])
+        if x[0] == "digit":
+            return "digit %d of %s" % (x[1], sv(x[2]))
+        if x[0] == "init":
+            r, pth = x[1]
+            return "%s%s" % (sym.show(r), "".join("[%s]" % q if isinstance(q, int) else ".%s" % q for q in pth[1:]))
+        if x[0] == "part":
+            return "a part of %s" % sv(x[2])
+        return str(x)[:60]
+    return "%s x row %s" % (sv(val), row[1][-1] if row[1] else "?")
+
+
+def check_external_product(chk, v, fname, fft):
+    """The external product as a term: the function's effect tree is interpreted (sa/concrete.py) for k, l in 1..3 with abstract
+    data.  Each primitive it calls has its documented meaning on abstract values -- digit j of a polynomial, the transform of
+    a polynomial, an accumulator as the multiset of (factor, row) products added since it was cleared, the conversion back --
+    and the value that ends up in the accumulator must be the sum over all components i <= k and digits j < l of
+    digit_j(accum.a[i]) x row[i*l + j] of the accumulator's ORIGINAL polynomials.  Independent of the order of the calls, of
+    how the scratch buffers are sized and indexed and of whether blocks are processed one at a time."""
+    from sa import concrete
+    from sa.pipeline import AnalysisBroken
+    vn = v.name
+    f = v.fn(fname)
+    ps, eff = summ.pieces(v, f, hooks=NOINLINE)
+    acc, gsw, par = [p["n"] for p in f.params]
+    K, L, KPL = sym.arrow(P(par, "tlwe_params"), "k"), P(par, "l"), P(par, "kpl")
+    ACC, GSW = sym.sym(acc), sym.sym(gsw)
+    rows_field = "all_samples" if fft else "all_sample"
+    key = "%s = sum over all kpl rows of %sdigit[p] * row%s[p], digit window i*l per component" % (fname, "FFT(" if fft else "", "FFT" if fft else "") \
+        if fft else "%s = sum over all kpl rows of digit[p] * row[p], from a cleared accumulator" % fname
+    if fft:
+        key = "%s = sum over all kpl rows of FFT(digit[p]) * rowFFT[p], digit window i*l per component" % fname
+    problems = []
+    ngrid = 0
+    for kv in (1, 2, 3):
+        for lv in (1, 2, 3):
+            if problems:
+                break
+            env = {K: kv, L: lv, KPL: (kv + 1) * lv}
+            mem = concrete.Memory()
+            extents = {}
+            notes = []
+
+            def loc(t, env):
+                return concrete.location(t, env)
+
+            def wr(lc, val, line):
+                r, pth = lc
+                if r in extents and pth and isinstance(pth[0], int) and not (0 <= pth[0] < extents[r]):
+                    notes.append("with k=%d, l=%d: element %d of a scratch array of %d is written (line %s)" % (kv, lv, pth[0], extents[r], line))
+                mem.write(lc, val)
+
+            def handler(kind, x, env):
+                if kind == "cond":
+                    return None
+                if kind == "store":
+                    r = sym.root_of(x["lv"])
+                    if r in (ACC, GSW) or r in extents:
+                        raise AnalysisBroken("%s: direct store to %s at line %s" % (fname, sym.show(x["lv"])[:60], x["l"]))
+                    return
+                if kind != "call":
+                    return
+                name, a = x["name"], x["args"]
+                if name.startswith("new_") and name.endswith("_array") and x.get("ret") is not None:
+                    nv = concrete.eval_term(a[0], env)
+                    if nv is None:
+                        raise AnalysisBroken("%s: extent %s of %s" % (fname, sym.show(a[0]), name))
+                    extents[x["ret"]] = nv
+                    return
+                if name.startswith(("new_", "delete_")):
+                    return
+                if name == "tGswTorus32PolynomialDecompH":
+                    val = mem.read(loc(a[1], env))
+                    for j in range(lv):
+                        wr(mem.shift(loc(a[0], env), j), ("digit", j, val), x["l"])
+                elif name == "tGswTLweDecompH":
+                    # all k+1 polynomials into windows of l digits (the wrapper itself: C12.R6, re-evaluated as R6 here)
+                    src = loc(a[1], env)
+                    for i_ in range(kv + 1):
+                        val = mem.read((src[0], src[1] + ("a", i_)))
+                        for j in range(lv):
+                            wr(mem.shift(loc(a[0], env), i_ * lv + j), ("digit", j, val), x["l"])
+                elif name == "IntPolynomial_ifft":
+                    wr(loc(a[0], env), ("fft", mem.read(loc(a[1], env))), x["l"])
+                elif name in ("tLweFFTClear", "tLweClear"):
+                    wr(loc(a[0], env), ("sum", ()), x["l"])
+                elif name in ("tLweFFTAddMulRTo", "tLweAddMulRTo"):
+                    cur = mem.read(loc(a[0], env))
+                    if cur[0] != "sum":
+                        notes.append("with k=%d, l=%d: a product is accumulated (line %s) onto an accumulator that was not cleared" % (kv, lv, x["l"]))
+                        cur = ("sum", ())
+                    wr(loc(a[0], env), ("sum", cur[1] + ((mem.read(loc(a[1], env)), loc(a[2], env)),)), x["l"])
+                elif name == "tLweFromFFTConvert":
+                    wr(loc(a[0], env), ("fromfft", mem.read(loc(a[1], env))), x["l"])
+                else:
+                    raise AnalysisBroken("%s: call to %s (line %s) has no abstract meaning here" % (fname, name, x["l"]))
+            try:
+                concrete.interpret(eff, env, handler)
+            except concrete.NotEvaluable as e:
+                raise AnalysisBroken("%s: %s" % (fname, e))
+            ngrid += 1
+            final = mem.read(loc(ACC, env))
+            if fft:
+                got = final[1][1] if final[0] == "fromfft" and final[1][0] == "sum" else None
+            else:
+                got = final[1] if final[0] == "sum" else None
+            want = []
+            for i in range(kv + 1):
+                for j in range(lv):
+                    d = ("digit", j, ("init", (ACC, (0, "a", i))))
+                    want.append((("fft", d) if fft else d, (GSW, (0, rows_field, i * lv + j))))
+            problems += notes
+            if got is None:
+                problems.append("with k=%d, l=%d: the accumulator does not end as %s" % (kv, lv, "the conversion of a cleared-and-accumulated "
+                                "Lagrange sample" if fft else "a cleared-and-accumulated sum"))
+            elif sorted(got, key=repr) != sorted(want, key=repr):
+                missing = [w for w in want if w not in got]
+                extra = [g_ for g_ in got if g_ not in want]
+                dup = [g_ for g_ in set(got) if got.count(g_) > 1]
+                what = []
+                if missing:
+                    what.append("missing %s" % _show_pair(missing[0]))
+                if extra:
+                    what.append("it contains %s" % _show_pair(extra[0]))
+                if dup and not extra:
+                    what.append("%s is added %d times" % (_show_pair(dup[0]), got.count(dup[0])))
+                problems.append("with k=%d, l=%d: the sum has %d products, the external product has %d; %s" % (kv, lv, len(got), len(want), "; ".join(what)))
+    chk.require(not problems, "R1", key, where=f.where,
+                ok="accumulator = %ssum_{i<=k, j<l} %sdigit_j(accum.a[i])%s x row[i*l+j]%s of the original accumulator (interpreted for k, l in 1..3: %d layouts)" % (
+                    "FromFFT(" if fft else "", "FFT(" if fft else "", ")" if fft else "", ")" if fft else "", ngrid),
+                bad="; ".join(problems)[:700], variant=vn)
+
+
 def run(chk):
     prog = Program()
     chk.explanation = (
@@ -187,78 +325,14 @@ def run(chk):
         # (C12.R4, "the input is restored", concerns the caller's operand, not the product: C15's business)
         c12.check_variant(c04._Sub(chk, "R6", skip={"R4"}), v)
         # ---------------- R1 coefficient external product
-        f = v.fn("tGswExternMulToTLwe")
-        ps, _ = summ.pieces(v, f, hooks=NOINLINE)
-        acc, smp, par = [p["n"] for p in f.params]
-        kpl = P(par, "kpl")
-        dc = calls(ps, "tGswTLweDecompH")
-        cl = calls(ps, "tLweClear")
-        am = calls(ps, "tLweAddMulRTo")
-        problems = []
-        if len(dc) != 1 or len(cl) != 1 or len(am) != 1:
-            problems.append("expected decomposition, clear and accumulate calls (%d/%d/%d)" % (len(dc), len(cl), len(am)))
-        else:
-            dec = dc[0]["args"][0]
-            if dc[0]["args"][1:] != [sym.sym(acc), sym.sym(par)]:
-                problems.append("decomposition of %s" % sym.show(dc[0]["args"][1]))
-            if cl[0]["args"][0] != sym.sym(acc) or not (dc[0]["line"] < cl[0]["line"] < am[0]["line"]):
-                problems.append("the accumulator is not cleared between decomposition and accumulation")
-            if len(am[0]["loops"]) != 1 or rng(am[0]["loops"][0]) != (ZERO, kpl):
-                problems.append("accumulation over %s, expected all kpl rows" % ([sym.show(t) for t in rng(am[0]["loops"][0])] if am[0]["loops"] else None))
-            else:
-                i = am[0]["loops"][0]["var"]
-                if am[0]["args"][:3] != [sym.sym(acc), sym.addr(sym.idx(dec, i)), sym.addr(sym.idx(P(smp, "all_sample"), i))]:
-                    problems.append("term i pairs %s with %s" % (sym.show(am[0]["args"][1]), sym.show(am[0]["args"][2])))
-        chk.require(not problems, "R1", "tGswExternMulToTLwe = sum over all kpl rows of digit[p] * row[p], from a cleared accumulator", where=f.where,
-                    ok="DecompH(dec, accum); Clear(accum); for p<kpl: AddMulR(accum, dec[p], all_sample[p])", bad="; ".join(problems), variant=vn)
+        check_external_product(chk, v, "tGswExternMulToTLwe", False)
         g = v.fn("tLweAddMulRTo")
         gps, _ = summ.pieces(v, g, hooks=NOINLINE)
         r, pp, s, tp = [p["n"] for p in g.params]
         mc = [c for c in calls(gps) if "AddMulR" in c["name"]]
         check_component_coverage(chk, v, g, mc, "tLweAddMulRTo multiplies all k+1 components by the same polynomial", vn)
         # ---------------- R1 FFT external product
-        f = v.fn("tGswFFTExternMulToTLwe")
-        ps, _ = summ.pieces(v, f, hooks=NOINLINE)
-        acc, gsw, par = [p["n"] for p in f.params]
-        kpl, l_, k_ = P(par, "kpl"), P(par, "l"), sym.arrow(P(par, "tlwe_params"), "k")
-        dc = calls(ps, "tGswTorus32PolynomialDecompH")
-        iff = calls(ps, "IntPolynomial_ifft")
-        cl = calls(ps, "tLweFFTClear")
-        am = calls(ps, "tLweFFTAddMulRTo")
-        cv = calls(ps, "tLweFromFFTConvert")
-        problems = []
-        if [len(x) for x in (dc, iff, cl, am, cv)] != [1, 1, 1, 1, 1]:
-            problems.append("expected decomposition, ifft, clear, accumulate, convert (%s)" % [len(x) for x in (dc, iff, cl, am, cv)])
-        else:
-            d0 = dc[0]
-            if len(d0["loops"]) != 1 or rng(d0["loops"][0]) != (ZERO, sym.add(k_, I(1))):
-                problems.append("decomposition over components %s, expected [0,k]" % ([sym.show(t) for t in rng(d0["loops"][0])] if d0["loops"] else None))
-            else:
-                i = d0["loops"][0]["var"]
-                base = d0["args"][0]
-                b0, off = (base[1][1], base[1][2]) if base[0] == "addr" and base[1][0] == "idx" else (base, ZERO)
-                if off != sym.mul(i, l_) or d0["args"][1] != sym.padd(P(acc, "a"), i):
-                    problems.append("component i goes to digits at %s from %s; expected deca + i*l from accum->a + i" % (sym.show(off), sym.show(d0["args"][1])))
-                deca = b0
-                f0 = iff[0]
-                if len(f0["loops"]) != 1 or rng(f0["loops"][0]) != (ZERO, kpl) or f0["args"][1] != sym.padd(deca, f0["loops"][0]["var"]):
-                    problems.append("digits transformed over %s" % [sym.show(t) for t in rng(f0["loops"][0])])
-                decaFFT = f0["args"][0]
-                decaFFT = decaFFT[1][1] if decaFFT[0] == "addr" and decaFFT[1][0] == "idx" else decaFFT
-                a0 = am[0]
-                if len(a0["loops"]) != 1 or rng(a0["loops"][0]) != (ZERO, kpl):
-                    problems.append("accumulation over %s, expected all kpl rows" % ([sym.show(t) for t in rng(a0["loops"][0])] if a0["loops"] else None))
-                else:
-                    p_ = a0["loops"][0]["var"]
-                    if a0["args"][1] != sym.padd(decaFFT, p_) or a0["args"][2] != sym.padd(P(gsw, "all_samples"), p_):
-                        problems.append("term p pairs %s with %s" % (sym.show(a0["args"][1]), sym.show(a0["args"][2])))
-                    tmpa = a0["args"][0]
-                    if cl[0]["args"][0] != tmpa or not cl[0]["line"] < a0["line"]:
-                        problems.append("the Lagrange accumulator is not cleared first")
-                    if cv[0]["args"][:2] != [sym.sym(acc), tmpa] or not a0["line"] < cv[0]["line"]:
-                        problems.append("the result is not converted back into accum")
-        chk.require(not problems, "R1", "tGswFFTExternMulToTLwe = sum over all kpl rows of FFT(digit[p]) * rowFFT[p], digit window i*l per component",
-                    where=f.where, ok="DecompH(deca+i*l, accum->a+i), i<=k; ifft all kpl; clear; AddMulR over kpl; FromFFT", bad="; ".join(problems), variant=vn)
+        check_external_product(chk, v, "tGswFFTExternMulToTLwe", True)
         g = v.fn("tLweFFTAddMulRTo")
         gps, _ = summ.pieces(v, g, hooks=NOINLINE)
         r, pp, s, tp = [p["n"] for p in g.params]
